@@ -206,7 +206,7 @@ class Infer:
             elif isinstance(t, (ast.Tuple, ast.List)):
                 for i, e in enumerate(t.elts):
                     if isinstance(e, ast.Starred):
-                        bind_target(e.value, ("unk",))
+                        bind_target(e.value, ("unpack_star", src))
                     else:
                         bind_target(e, ("unpack", src, i))
 
@@ -476,6 +476,15 @@ class Infer:
                 v = src[1]
                 if isinstance(v, (ast.Tuple, ast.List)) and idx < len(v.elts):
                     return self.type_of(v.elts[idx], f)
+                if isinstance(v, ast.Call):
+                    out = set()
+                    for s in self.call_sites_of(v, f):
+                        ann = getattr(s.callee.node, "returns", None)
+                        if isinstance(ann, ast.Subscript) and dotted(ann.value) in ("Tuple", "typing.Tuple", "tuple"):
+                            elts = ann.slice.elts if isinstance(ann.slice, ast.Tuple) else [ann.slice]
+                            if idx < len(elts):
+                                out |= self.ann_type(elts[idx], s.callee.module)
+                    return frozenset(out)
                 return UNK
             return UNK
         if kind == "with":
@@ -646,7 +655,74 @@ class Infer:
             return None
         return None
 
+    def possible_segments(self, e, scope, sep, _depth=0, _seen=None):
+        """Set of atomic segments such that the value of `e` (a string, or a
+        list of strings) is made of sep-joined members of the set; or None."""
+        _seen = _seen if _seen is not None else set()
+        if _depth > 12:
+            return None
+        if isinstance(e, ast.Constant) and isinstance(e.value, str):
+            return set(e.value.split(sep))
+        if isinstance(e, (ast.List, ast.Tuple)):
+            out = set()
+            for x in e.elts:
+                got = self.possible_segments(x, scope, sep, _depth + 1, _seen)
+                if got is None:
+                    return None
+                out |= got
+            return out
+        if isinstance(e, ast.Call) and isinstance(e.func, ast.Attribute):
+            if e.func.attr == "join" and isinstance(e.func.value, ast.Constant) and e.func.value.value == sep and e.args:
+                return self.possible_segments(e.args[0], scope, sep, _depth + 1, _seen)
+            if e.func.attr == "split" and e.args and isinstance(e.args[0], ast.Constant) and e.args[0].value == sep:
+                return self.possible_segments(e.func.value, scope, sep, _depth + 1, _seen)
+        if isinstance(e, ast.Name):
+            f = scope if isinstance(scope, Func) else None
+            while f is not None:
+                if e.id in f.locals():
+                    key = (f, e.id)
+                    if key in _seen:
+                        return set()
+                    _seen.add(key)
+                    out = set()
+                    for b in self.bindings(f).get(e.id, []):
+                        got = None
+                        if b[0] == "param":
+                            srcs = self.param_args(f, b[1].name)
+                            if not srcs:
+                                return None
+                            got = set()
+                            for sc, a in srcs:
+                                if not isinstance(a, ast.AST):
+                                    return None
+                                g2 = self.possible_segments(a, sc, sep, _depth + 1, _seen)
+                                if g2 is None:
+                                    return None
+                                got |= g2
+                        elif b[0] in ("assign",):
+                            got = self.possible_segments(b[1], f, sep, _depth + 1, _seen)
+                        elif b[0] == "iter":
+                            got = self.possible_segments(b[1], f, sep, _depth + 1, _seen)
+                        elif b[0] in ("unpack", "unpack_star"):
+                            src = b[1]
+                            if src[0] in ("assign", "iter"):
+                                got = self.possible_segments(src[1], f, sep, _depth + 1, _seen)
+                        if got is None:
+                            return None
+                        out |= got
+                    return out
+                f = f.parent
+            r = self.prog.resolve_global(self._mod(scope), e.id)
+            if r and r[0] == "const":
+                return self.possible_segments(r[2], r[1], sep, _depth + 1, _seen)
+        return None
+
     def _binding_strings(self, b, f, depth):
+        if b[0] == "unpack" and b[1][0] == "assign":
+            v = b[1][1]
+            if (isinstance(v, ast.Call) and isinstance(v.func, ast.Attribute) and v.func.attr == "split"
+                    and v.args and isinstance(v.args[0], ast.Constant) and isinstance(v.args[0].value, str)):
+                return self.possible_segments(v.func.value, f, v.args[0].value)
         if b[0] == "param":
             out = set()
             srcs = self.param_args(f, b[1].name)
@@ -1388,6 +1464,9 @@ class Infer:
         if d in ("bool",) and len(n.args) == 1:
             self._op_sites(n, "__bool__", n.args[0], [], func, sites, typed_only=True)
 
+        if ft and all(t[0] == "b" for t in ft):
+            # only non-callable builtin types inferred: the inference is incomplete, treat as unknown
+            ft = UNK
         if not ft:
             # unknown callee
             if isinstance(fnode, ast.Attribute):
@@ -1504,6 +1583,10 @@ class Infer:
             for s in prog.subclasses(c):
                 if "__call__" in s.methods:
                     cands.append(s.methods["__call__"])
+                if any(b == "type" for b in s.ext_bases()):
+                    # an instance of c may be a class created by metaclass s: calling it constructs
+                    for k in self.meta_instance_classes(s):
+                        self._ctor_sites(n, k, func, args, kwargs, star, dstar, sites, edge=edge)
             callrecv = fnode if fnode is not None else recv
             for m in cands:
                 sites.append(Site(func, n, m, "call", recv=callrecv, args=args, kwargs=kwargs, star=star, dstar=dstar, edge=edge))
